@@ -53,9 +53,15 @@ fn main() {
     // it is left out of builds restricted (SNT_ONLY) to other modules
     tools.retain(|t| {
         let text = fs::read_to_string(src.join(format!("{}.rs", t))).unwrap_or_default();
-        text.lines().take(8).filter_map(|l| l.trim().strip_prefix("// requires:")).all(|reqs| {
+        let declared = text.lines().take(8).filter_map(|l| l.trim().strip_prefix("// requires:")).all(|reqs| {
             reqs.split(',').map(|r| r.trim().to_lowercase()).filter(|r| !r.is_empty()).all(|r| mods.contains(&r))
-        })
+        });
+        // also without a header: every `registry::cNN` the tool mentions must be part of the build
+        let mentioned = text.match_indices("registry::c").all(|(i, _)| {
+            let name: String = text[i + "registry::".len()..].chars().take(3).collect();
+            !(name.len() == 3 && name[1..].chars().all(|c| c.is_ascii_digit())) || mods.contains(&name)
+        });
+        declared && mentioned
     });
     for t in &tools {
         out.push_str(&format!("#[path = \"{}/{}.rs\"]\npub mod {};\n", src.display(), t, t));
